@@ -1,0 +1,55 @@
+//go:build verif
+
+// Contracts (machine-checked by /verif/engine, see /verif/DESIGN.md). Comment-only file.
+package playerinfo
+
+// ---- C07: player-info packets in the vanilla wire layout ----------------------------------------------------------
+// Upsert: a bit set with bit i set iff canonical action i (the fixed order of UpsertActions) is in the action set;
+// the entry count; per entry its UUID followed by the data of exactly the actions of the set, in CANONICAL order -
+// whatever order the API supplied them in.
+//@ func (*Upsert).Encode
+//@   props C07
+//@   loop 1: invariant rangeindex >= -1 && rangeindex < len(UpsertActions)
+//@   loop 2: invariant rangeindex >= -1 && rangeindex < len(old(u.Entries))
+//@   loop 3: invariant rangeindex >= -1 && rangeindex < len(UpsertActions)
+//@   at-call ContainsAction#1 as bit: assert ref(arg0) == ref(u.ActionSet) && len(arg0) == len(u.ActionSet)
+//@   at-call SetBool as set: assert [bit-i-is-membership-of-canonical-action-i] called(bit) && arg1 == i && arg2 == res(bit) && arg(bit, 1) == UpsertActions[i]
+//@   at-call Write as bits: assert [bit-set-first] ref(arg1) == ref(bitSet.Bytes)
+//@   at-call WriteVarInt as n: assert [then-the-entry-count] called(bits) && res(bits, 1) == nil && arg1 == len(u.Entries)
+//@   at-call WriteUUID as id: assert [each-entry-starts-with-its-uuid] called(n) && res(n) == nil && arg1 == entry.ProfileID
+//@   at-call ContainsAction#2 as member: assert [walks-the-canonical-order] called(id) && arg1 == action
+//@   at-call Encode as data: assert [data-only-for-actions-of-the-set] called(member) && res(member) && arg0 == action && arg3 == entry && arg(member, 1) == action
+
+// Remove: count, then the UUIDs.
+//@ func (*Remove).Encode
+//@   props C07
+//@   loop 1: invariant rangeindex >= -1 && rangeindex < len(old(r.PlayersToRemove)) && called(n) && res(n) == nil
+//@   at-call WriteVarInt as n: assert arg1 == len(r.PlayersToRemove)
+//@   at-call WriteUUID as id: assert called(n) && res(n) == nil && arg1 == p
+
+// Per-action data.
+//@ func (*updateGameModeAction).Encode
+//@   props C07
+//@   at-call WriteVarInt as f: assert arg1 == info.GameMode
+//@   ensures called(f) && result == res(f)
+//@ func (*updateListedAction).Encode
+//@   props C07
+//@   at-call WriteBool as f: assert arg1 == info.Listed
+//@   ensures called(f) && result == res(f)
+//@ func (*updateLatencyAction).Encode
+//@   props C07
+//@   at-call WriteVarInt as f: assert arg1 == info.Latency
+//@   ensures called(f) && result == res(f)
+//@ func (*updateListOrderAction).Encode
+//@   props C07
+//@   at-call WriteVarInt as f: assert arg1 == info.ListOrder
+//@   ensures called(f) && result == res(f)
+//@ func (*updateHatAction).Encode
+//@   props C07
+//@   at-call WriteBool as f: assert arg1 == info.ShowHat
+//@   ensures called(f) && result == res(f)
+//@ func (*addAction).Encode
+//@   props C07
+//@   at-call WriteString as name: assert streq(arg1, info.Profile.Name)
+//@   at-call WriteProperties as props: assert called(name) && res(name) == nil && ref(arg1) == ref(info.Profile.Properties) && len(arg1) == len(info.Profile.Properties)
+//@   ensures [name-then-properties] result == nil ==> called(name) && called(props)
